@@ -47,37 +47,37 @@ Qed.
 
 Lemma vsorted_nil : vsorted_kids []. Proof. split; [exact I|constructor]. Qed.
 
-Definition body_of (entry_f : bool -> str -> list (str * val) -> res (list (str * val) * str)) (fuel : nat) :=
+Definition body_of (entry_f : str -> list (str * val) -> res (list (str * val) * str)) (fuel : nat) :=
   fix body (fu : nat) (r : str) (ks : list (str * val)) : res (list (str * val) * str) :=
     match fu with O => inl EFuel | S fu' =>
     match ws fuel false r with
     | (None, _) => inl EEof
     | (Some c2, r2) => if nb c2 =? 125 then inr (ks, r2)
-                       else match entry_f false (c2 :: r2) ks with
+                       else match entry_f (c2 :: r2) ks with
                             | inl e => inl e
                             | inr (ks', r3) => body fu' r3 ks'
                             end
     end end.
 
 Lemma body_sorted entry_f fuel :
-  (forall top s kids kids' r, vsorted_kids kids -> entry_f top s kids = inr (kids', r) -> vsorted_kids kids') ->
+  (forall s kids kids' r, vsorted_kids kids -> entry_f s kids = inr (kids', r) -> vsorted_kids kids') ->
   forall fu r ks ks' r2, vsorted_kids ks -> body_of entry_f fuel fu r ks = inr (ks', r2) -> vsorted_kids ks'.
 Proof.
   intros He. induction fu as [|fu IH]; intros r ks ks' r2 Hk H; cbn [body_of] in H; [discriminate|]. fold (body_of entry_f fuel) in H.
   destruct (ws fuel false r) as [[c2|] rr]; [|discriminate].
   destruct (nb c2 =? 125); [inversion H; subst; exact Hk|].
-  destruct (entry_f false (c2 :: rr) ks) as [e|[ks1 r3]] eqn:Ee; [discriminate|].
+  destruct (entry_f (c2 :: rr) ks) as [e|[ks1 r3]] eqn:Ee; [discriminate|].
   eapply IH; [|exact H]. eapply He; eassumption.
 Qed.
 
-Lemma entry_S f top s kids : entry (S f) top s kids =
+Lemma entry_S f d s kids : entry (S f) d s kids =
   match pstring (S f) s with
   | None => inr (kids, [])
   | Some (inl e) => inl e
   | Some (inr (name, r0)) =>
     let tail (kids' : list (str * val)) (r : str) : res (list (str * val) * str) :=
       match ws (S f) true r with
-      | (Some c, r') => if (nb c =? 125) && negb top then inr (kids', c :: r')
+      | (Some c, r') => if (nb c =? 125) && negb (Nat.eqb d 0) then inr (kids', c :: r')
                         else if (nb c =? 59) || (nb c =? 10) then inr (kids', r') else inl ESemi
       | (None, _) => inl ESemi
       end in
@@ -90,8 +90,9 @@ Lemma entry_S f top s kids : entry (S f) top s kids =
         | inr (items, r2) => tail (upsert name 2 (fun _ => VList items) kids) r2
         end
       else if nb c =? 123 then
+        if Nat.leb max_depth d then inl EDeep else
         let old := match lookup name 3 kids with Some (VObj k) => k | _ => [] end in
-        match body_of (entry f) (S f) f r1 old with
+        match body_of (entry f (S d)) (S f) f r1 old with
         | inl e => inl e
         | inr (ks, r2) => tail (upsert name 3 (fun _ => VObj ks) kids) r2
         end
@@ -132,10 +133,10 @@ Proof.
   destruct ((nb c =? 59) || (nb c =? 10)); [intros H; inversion H; reflexivity|discriminate].
 Qed.
 
-Theorem entry_sorted : forall fuel top s kids kids' r,
-  vsorted_kids kids -> entry fuel top s kids = inr (kids', r) -> vsorted_kids kids'.
+Theorem entry_sorted : forall fuel d s kids kids' r,
+  vsorted_kids kids -> entry fuel d s kids = inr (kids', r) -> vsorted_kids kids'.
 Proof.
-  induction fuel as [|f IH]; intros top s kids kids' r Hk H; [discriminate|].
+  induction fuel as [|f IH]; intros d s kids kids' r Hk H; [discriminate|].
   rewrite entry_S in H. cbn zeta in H.
   destruct (pstring (S f) s) as [[e|[name r0]]|]; [discriminate| |inversion H; subst; exact Hk].
   destruct (ws (S f) false r0) as [[c|] r1]; [|inversion H; subst; exact Hk].
@@ -143,9 +144,10 @@ Proof.
   { destruct (plist (S f) r1 []) as [e|[items r2]]; [discriminate|]. apply tail_inv in H. subst kids'.
     apply upsert_vsorted; [reflexivity|exact I|exact Hk]. }
   destruct (nb c =? 123).
-  { destruct (body_of (entry f) (S f) f r1 _) as [e|[ks r2]] eqn:Hb; [discriminate|]. apply tail_inv in H. subst kids'.
+  { destruct (Nat.leb max_depth d); [discriminate|].
+    destruct (body_of (entry f (S d)) (S f) f r1 _) as [e|[ks r2]] eqn:Hb; [discriminate|]. apply tail_inv in H. subst kids'.
     apply upsert_vsorted; [reflexivity| |exact Hk]. apply vsorted_obj.
-    eapply (body_sorted (entry f) (S f) IH); [|exact Hb].
+    eapply (body_sorted (entry f (S d)) (S f) (IH (S d))); [|exact Hb].
     destruct (lookup name 3 kids) as [[| | |k]|] eqn:El; try apply vsorted_nil.
     apply vsorted_obj. eapply lookup_vsorted; eassumption. }
   destruct (pstring (S f) (c :: r1)) as [[e|[v r2]]|]; try discriminate.
@@ -163,7 +165,7 @@ Theorem entries_sorted : forall fuel s kids kids', vsorted_kids kids -> entries 
 Proof.
   induction fuel as [|f IH]; intros s kids kids' Hk H; cbn [entries] in H; [discriminate|].
   destruct s as [|c s]; [inversion H; subst; exact Hk|].
-  destruct (entry (S f) true (c :: s) kids) as [e|[k' r]] eqn:E; [discriminate|].
+  destruct (entry (S f) 0 (c :: s) kids) as [e|[k' r]] eqn:E; [discriminate|].
   eapply IH; [|exact H]. eapply entry_sorted; eassumption.
 Qed.
 
